@@ -21,6 +21,8 @@ inductive Flow
   | ret (text : String)
   /-- a `while` whose body is straight-line code -/
   | loop (cond : String) (body : List String)
+  /-- a loop whose body branches: explored as "not entered" and as one symbolic iteration -/
+  | loopB (cond : String) (body : Flow)
   /-- a construct the translator has no constructor for -/
   | other (what : String)
 deriving Repr
@@ -31,6 +33,9 @@ inductive Ev
   | no (cond : String)       -- the condition was evaluated and did not hold
   | ret (text : String)
   | loop (cond : String) (body : List String)
+  | loopSkip (cond : String)   -- a branching loop is not entered
+  | loopIter (cond : String)   -- ... or one iteration (any of them) begins
+  | loopEnd
   | other (what : String)
 deriving Repr, DecidableEq
 
@@ -41,6 +46,8 @@ def paths : Flow → List (List Ev × Bool)
   | .ret t => [([.ret t], true)]
   | .loop c b => [([.loop c b], false)]
   | .other w => [([.other w], false)]
+  | .loopB c b =>
+    ([Ev.loopSkip c], false) :: (paths b).map (fun p => (Ev.loopIter c :: p.1 ++ (if p.2 then [] else [Ev.loopEnd]), p.2))
   | .ite c a b =>
     (paths a).map (fun p => (Ev.yes c :: p.1, p.2)) ++ (paths b).map (fun p => (Ev.no c :: p.1, p.2))
   | .seq a b =>
